@@ -250,7 +250,7 @@ class RaggedArray(IndexableArray, np.lib.mixins.NDArrayOperatorsMixin):
         assert data.dtype == dtype, (values.dtype, data.dtype, dtype)
         return RaggedArray(data, self._shape, safe_mode=False)  # data has a single element for one-row arrays
 
-    def _reduce(self, ufunc, ra, axis=0, **kwargs):
+    def _reduce(self, ufunc, ra, axis=0, keepdims=False, **kwargs):
         assert axis in (
             1,
             -1,
@@ -277,7 +277,7 @@ class RaggedArray(IndexableArray, np.lib.mixins.NDArrayOperatorsMixin):
         if identity is not None:
             result[ra._shape.lengths == 0] = identity
 
-        return result
+        return result[:, None] if keepdims else result
 
     def _reduce_invertable(self, ufunc, ra, axis, **kwargs):
         if not np.issubdtype(ra.dtype, np.integer):
